@@ -1039,7 +1039,7 @@ var basicObjects = []*ObjectSchema{
 			),
 			"multipliers": NewPropertySchema(
 				NewMapSchema(
-					NewIntSchema(nil, nil, nil),
+					NewIntSchema(IntPointer(2), nil, nil),
 					NewRefSchema("Unit", nil),
 					nil,
 					nil,
